@@ -26,7 +26,9 @@ H = Harness("C15", ["OQ.Base.CaseEq", "OQ.Stats.Estimation", "OQ.Stats.Estimatio
             "scripted wavefunction simulator returning dyadic unit states of 1-3 qubits, per-task circuits of different widths, "
             "X/Y/Z operators with gaps, constants and some complex coefficients, empty sums, operators wider than the state; "
             "compared with the model built on C09's get_expectation over Gaussian rationals) and exact-general (SymbolicSimulator "
-            "on rotation circuits, oracle only: quadratic form with dense matrices); non-trivial = at least two tasks of different kinds, or a measured operator with two or more terms")
+            "on rotation circuits, oracle only: quadratic form with dense matrices); in all three exact kinds the tasks of one list "
+            "mix number_of_shots 0 / None / positive and constant / non-constant operators, and every position is checked "
+            "against the quadratic form; non-trivial = at least two tasks of different kinds, or a measured operator with two or more terms")
 
 ERR = {"ValueError": "EValue", "TypeError": "EType", "IndexError": "EIndex", "RuntimeError": "ERuntime"}
 
@@ -276,6 +278,10 @@ class ScriptedSimulator(BaseWavefunctionSimulator):
                 return Wavefunction(np.array(amps, dtype=complex))
         raise KeyError("unknown circuit")
 
+def g_xshots(rng):
+    """shots of a task handed to the exact path (must not matter): 0, None and positive regularly mixed"""
+    return rng.choice([0, 0, None, None, rng.randint(1, 50), rng.randint(1, 50)])
+
 def gen(rng, tier):
     n = 420 if tier in ("quick", "search") else 8000
     for _ in range(n):
@@ -283,7 +289,7 @@ def gen(rng, tier):
         if r < 0.07:
             states = [[n, g_state(rng, n)] for n in [rng.randint(1, 3) for _ in range(rng.randint(1, 3))]]
             tasks = []
-            for _ in range(rng.randint(1, 4)):
+            for _ in range(rng.randint(1, 5)):
                 ci = rng.randrange(len(states))
                 n = states[ci][0]
                 wide = rng.random() < 0.06
@@ -296,7 +302,7 @@ def gen(rng, tier):
                 if rng.random() < 0.4:
                     terms.insert(rng.randint(0, len(terms)), [g_coef(rng), []])
                 form = "term" if len(terms) == 1 and rng.random() < 0.5 else "sum"
-                tasks.append(dict(op=dict(form=form, terms=terms), circ=ci))
+                tasks.append(dict(op=dict(form=form, terms=terms), circ=ci, shots=g_xshots(rng)))
             yield dict(kind="exact-model", states=states, tasks=tasks)
         elif r < 0.42:
             nq = rng.randint(1, 4)
@@ -341,9 +347,10 @@ def gen(rng, tier):
                 nq = rng.randint(1, 4)
                 circs.append([nq, [rng.randrange(nq) for _ in range(rng.randint(0, nq + 1))]])
             tasks = []
-            for _ in range(rng.randint(1, 4)):
+            for _ in range(rng.randint(1, 5)):
                 ci = rng.randrange(len(circs))
-                tasks.append(dict(op=gen_op(rng, circs[ci][0], rng.choice(["ising", "ising", "const"])), circ=ci))
+                tasks.append(dict(op=gen_op(rng, circs[ci][0], rng.choice(["ising", "ising", "const"])), circ=ci,
+                                  shots=g_xshots(rng)))
             yield dict(kind="exact-basis", circs=circs, tasks=tasks)
         else:
             nq = rng.randint(1, 3)
@@ -358,11 +365,13 @@ def gen(rng, tier):
                         gates.append([g, [rng.randrange(nq)], None if g == "X" else rng.randint(-7, 7)])
                 circs.append(gates)
             tasks = []
-            for _ in range(rng.randint(1, 3)):
+            for _ in range(rng.randint(1, 4)):
                 terms = [gen_zterm(rng, nq, "XYZ") for _ in range(rng.randint(1, 3))]
                 if rng.random() < 0.4:
                     terms.append([gen_coef(rng), []])
-                tasks.append(dict(op=dict(form="sum", terms=terms), circ=rng.randrange(len(circs))))
+                if rng.random() < 0.15:
+                    terms = [[gen_coef(rng), []] for _ in range(rng.randint(0, 2))]      # constant operator in the same list
+                tasks.append(dict(op=dict(form="sum", terms=terms), circ=rng.randrange(len(circs)), shots=g_xshots(rng)))
             yield dict(kind="exact-general", nq=nq, circs=circs, tasks=tasks)
 
 # ----------------------------------------------------------------------------- runners
@@ -534,7 +543,7 @@ def run_case(inp):
     if kind == "exact-basis":
         circs, tasks = inp["circs"], inp["tasks"]
         circuits = [xcirc(c) for c in circs]
-        py_tasks = [EstimationTask(mk_op(t["op"]), circuits[t["circ"]], None) for t in tasks]
+        py_tasks = [EstimationTask(mk_op(t["op"]), circuits[t["circ"]], t.get("shots")) for t in tasks]
         st, out = outcome(lambda: calculate_exact_expectation_values(SymbolicSimulator(), py_tasks), timeout=60)
         if st != "ok":
             return dict(chk="false", oracle_ok=False, oracle_msg=f"calculate_exact_expectation_values raised {out}", kind=kind)
@@ -558,7 +567,7 @@ def run_case(inp):
         def mk(op):
             terms = [PauliTerm({int(q): p for q, p in ops}, gnum(c) if c[1] else float(gnum(c).real)) for c, ops in op["terms"]]
             return terms[0] if op["form"] == "term" else PauliSum(terms)
-        py_tasks = [EstimationTask(mk(t["op"]), circuits[t["circ"]], None) for t in tasks]
+        py_tasks = [EstimationTask(mk(t["op"]), circuits[t["circ"]], t.get("shots")) for t in tasks]
         st, out = outcome(lambda: [(np.asarray(e.values).reshape(-1).tolist(), e.correlations, e.estimator_covariances)
                                    for e in calculate_exact_expectation_values(sim, py_tasks)], timeout=60)
         wide = any(q >= states[t["circ"]][0] for t in tasks for _, ops in t["op"]["terms"] for q, _ in ops)
@@ -589,7 +598,7 @@ def run_case(inp):
         gl = dict(X=X, RX=RX, RY=RY, RZ=RZ, CNOT=CNOT)
         circuits = [Circuit([gl[g](*qs) if k is None else gl[g](sympy.pi * sympy.Rational(k, 8))(*qs) for g, qs, k in gates],
                             n_qubits=nq) for gates in inp["circs"]]
-        py_tasks = [EstimationTask(mk_op(t["op"]), circuits[t["circ"]], None) for t in tasks]
+        py_tasks = [EstimationTask(mk_op(t["op"]), circuits[t["circ"]], t.get("shots")) for t in tasks]
         st, out = outcome(lambda: calculate_exact_expectation_values(SymbolicSimulator(), py_tasks), timeout=60)
         if st != "ok":
             return dict(chk=None, oracle_ok=False, oracle_msg=f"calculate_exact_expectation_values raised {out}", kind=kind)
